@@ -1,2 +1,13 @@
 import Sio.Props.C04
-#print axioms Sio.C04.placeholder_stub
+#print axioms Sio.C04.step_of_isConnect
+#print axioms Sio.C04.connect_once
+#print axioms Sio.C04.connect_no_handler
+#print axioms Sio.C04.not_served
+#print axioms Sio.C04.duplicate
+#print axioms Sio.C04.sids_fresh
+#print axioms Sio.C04.sids_fresh_later
+#print axioms Sio.C04.disconnect_once
+#print axioms Sio.C04.disconnect_after_end
+#print axioms Sio.C04.after_end
+#print axioms Sio.C04.end_paths
+#print axioms Sio.C04.other_namespaces_unaffected
